@@ -3,7 +3,7 @@
    Integers (str / int), floats in the positional range of repr, timestamps.  *)
 From Coq Require Import Decimal DecimalN DecimalPos DecimalFacts.
 From Coq Require Import NArith ZArith List Bool Lia.
-From V Require Import Model.PatternSyntax Proofs.PatternNumbers.
+From V Require Import Model.PatternSyntax Spec.PatternSpec Proofs.PatternR Proofs.PatternNumbers.
 Import ListNotations.
 Open Scope N_scope.
 
@@ -113,13 +113,13 @@ Qed.
 
 Definition float_tok (f : fval) : token := Tok (num_kind (print_float f) KFloatPos KFloatNeg) (print_float f).
 
-(* float(repr(x)) = x, and repr(x) is a Float literal, in the positional range *)
-Lemma float_print_parse : forall f, fnorm f -> float_plain f = true ->
+(* float(str(x)) = x, and str(x) is a Float literal (positional notation) *)
+Lemma float_print_parse : forall f, fnorm f ->
   py_float (print_float f) = Some f /\
   (tk (float_tok f) = KFloatPos \/ tk (float_tok f) = KFloatNeg) /\ token_ok (float_tok f) = true.
 Proof.
-  intros [neg ip fp] [Hi [Hf [Si Sf]]] Hp. cbn [f_ip f_fp] in *.
-  unfold float_tok, token_ok, print_float. cbn [tk tx f_neg f_ip f_fp]. rewrite Hp.
+  intros [neg ip fp] [Hi [Hf [Si Sf]]]. cbn [f_ip f_fp] in *.
+  unfold float_tok, token_ok. rewrite print_float_rep. cbn [tk tx f_neg f_ip f_fp].
   pose proof (or0_head_digit ip ([46] ++ or0 fp) Hi) as Hh.
   pose proof (float_body_print ip fp Hi Hf) as Hb.
   pose proof (py_float_body_print neg ip fp Hi Hf Si Sf) as Hpy.
@@ -164,10 +164,6 @@ Qed.
 
 Ltac Zify.zify_post_hook ::= Z.to_euclidean_division_equations.
 
-Definition ts_ok (t : tsval) : bool :=
-  (1 <=? ts_y t) && (ts_y t <=? 9999) && (1 <=? ts_mo t) && (ts_mo t <=? 12) && (1 <=? ts_d t) &&
-  (ts_d t <=? days_in_month (ts_y t) (ts_mo t)) && (ts_h t <=? 23) && (ts_mi t <=? 59) && (ts_s t <=? 59) &&
-  Nat.eqb (List.length (ts_us t)) 6 && digs (ts_us t).
 
 Lemma is_digit_mod : forall x, is_digit (48 + x mod 10) = true.
 Proof. intros x. unfold is_digit. apply andb_true_iff. split; apply N.leb_le; lia. Qed.
